@@ -6,6 +6,7 @@ import (
 	"encoding/xml"
 	"errors"
 	"fmt"
+	"strconv"
 	"testing"
 
 	"go.lstv.dev/util/date"
@@ -77,6 +78,9 @@ func judge(c Case, w *vkit.W) {
 		}
 	}()
 	orig := date.New(int(c.Y), date.Month(c.M), c.D)
+	if c.Setting == "after-custom-hooks" {
+		pokeWithCustomHooks(orig)
+	}
 	if !same(orig, c) {
 		y, m, d := orig.Date()
 		w.Fail(c, "constructor", fmt.Sprintf("New(%d,%d,%d).Date() = %d-%d-%d", c.Y, c.M, c.D, y, int(m), d))
@@ -120,6 +124,15 @@ func judge(c Case, w *vkit.W) {
 			out("Sprintf(%e)", fmt.Sprintf("%e", orig), ext)
 			out("Sprintf(%v)", fmt.Sprintf("%v", orig), ext)
 			out("Sprint", fmt.Sprint(orig), ext)
+			// the same verb reaches the value inside containers and through the other print functions
+			out("Sprintf(%+v)", fmt.Sprintf("%+v", orig), ext)
+			out("Sprintln", fmt.Sprintln(orig), ext+"\n")
+			out("Sprintf(%v) of a slice", fmt.Sprintf("%v", []date.Date{orig, orig}), "["+ext+" "+ext+"]")
+			out("Sprintf(%v) of a struct", fmt.Sprintf("%v", struct{ D date.Date }{orig}), "{"+ext+"}")
+			out("Sprintf(%+v) of a struct", fmt.Sprintf("%+v", struct{ D date.Date }{orig}), "{D:"+ext+"}")
+			out("Sprintf(%s) of a map", fmt.Sprintf("%s", map[string]date.Date{"k": orig}), "map[k:"+ext+"]")
+			out("Sprintf(%v) of an interface value", fmt.Sprintf("%v|%s", any(orig), fmt.Stringer(orig)), ext+"|"+ext)
+			out("Sprintf(%b) of a slice", fmt.Sprintf("%b", []date.Date{orig}), "["+ref.DateText(c.Y, c.M, c.D, true)+"]")
 			jb, err := json.Marshal(jholder{D: orig, P: &orig, L: []date.Date{orig}})
 			if err != nil {
 				w.Fail(c, "formatter-error", "json.Marshal: "+err.Error())
@@ -198,6 +211,28 @@ func judge(c Case, w *vkit.W) {
 			in("xml.Unmarshal(attribute)", xh.A, nil)
 		}
 	}
+}
+
+// pokeWithCustomHooks replaces the package-level Formatter and Parser by functions that succeed with other results, sends
+// d through every path that consults them, and puts the default functions back: the hooks are settings, and what was
+// produced under one setting must not be handed out under the next.
+func pokeWithCustomHooks(d date.Date) {
+	oldF, oldP := date.Formatter, date.Parser
+	defer func() { date.Formatter, date.Parser = oldF, oldP }()
+	date.Formatter = func(buf []byte, d date.Date, f date.Format) ([]byte, error) {
+		return append(buf, "custom<"+strconv.Itoa(d.Year())+"/"+strconv.Itoa(d.Day())+">"...), nil
+	}
+	date.Parser = func(input []byte, r date.Rule) (date.Date, error) { return date.New(1666, 6, 6), nil }
+	_ = d.String()
+	_ = fmt.Sprintf("%s %e %b %v", d, d, d, d)
+	_, _ = d.MarshalText()
+	_, _ = json.Marshal(jholder{D: d, P: &d, L: []date.Date{d}})
+	_, _ = xml.Marshal(holder{A: d, D: d})
+	var u date.Date
+	text := ref.DateText(int64(d.Year()), int(d.Month()), d.Day(), false)
+	_ = u.UnmarshalText([]byte(text))
+	_ = json.Unmarshal([]byte(`{"d":"`+text+`"}`), &jholder{})
+	_ = u.Scan(text)
 }
 
 func setLimit(n int) func() {
@@ -296,6 +331,21 @@ func TestCheck(t *testing.T) {
 				c := Case{Y: y, M: m, D: d, Limit: -1, Setting: "failing-formatter"}
 				judgeFailingFormatter(c, w)
 				w.Eval(true)
+			}
+		})
+	})
+
+	// Phase A3: the package-level Formatter and Parser are replaced by functions that succeed with other results, used, and
+	// put back: afterwards every path must again produce and read the canonical text.
+	r.Phase("A3: every path again right after custom package-level Formatter/Parser functions were installed, used and removed", func() {
+		r.Serial(func(w *vkit.W) {
+			for i := int64(0); i < total; i += 211 {
+				y, m, d := ref.CivilFromDays(ref.Ord0 + i)
+				for _, basic := range []bool{false, true} {
+					c := Case{Y: y, M: m, D: d, Basic: basic, Limit: -1, Full: true, Setting: "after-custom-hooks"}
+					judge(c, w)
+					w.Eval(true)
+				}
 			}
 		})
 	})
